@@ -869,7 +869,7 @@ def CustomObject(type='x-custom-type', properties=None, extension_name=None, is_
                 else:
                     extension_type = 'new-sro'
 
-            extension = extension_name.split('--')[1]
+            extension = extension_name.split('--')[-1]
             extension = extension.replace('-', '')
             NameExtension.__name__ = 'ExtensionDefinition' + extension
             cls.with_extension = extension_name
